@@ -94,6 +94,8 @@ pub struct Obs {
     pub board: [u8; 64],
     pub side_white: bool,
     pub state_bits: (bool, bool, bool, bool, i8),
+    /// the printed move record (what `show` displays as the game so far)
+    pub record: String,
 }
 
 pub fn obs(g: &Game) -> Obs {
@@ -114,6 +116,11 @@ pub fn obs(g: &Game) -> Obs {
             st.black_queen_castling(),
             st.en_passant(),
         ),
+        record: {
+            // length of the game record and its last entry (the full text is checked by C20)
+            let ms = g.move_stack();
+            format!("{} moves, last {}", ms.len(), ms.last().map(|m| m.pgn_notation()).unwrap_or_default())
+        },
     }
 }
 
@@ -145,6 +152,9 @@ pub fn obs_diff(a: &Obs, b: &Obs) -> String {
     }
     if a.side_white != b.side_white {
         d.push("side differs".to_string());
+    }
+    if a.record != b.record {
+        d.push(format!("move record {:?} -> {:?}", a.record, b.record));
     }
     if a.state_bits != b.state_bits {
         d.push(format!("state {:?} -> {:?}", a.state_bits, b.state_bits));
